@@ -138,6 +138,10 @@ func (e *Engine) GenVCs(fn *ssa.Function, fc *FuncContract) (res *FuncResult) {
 	for _, fv := range fn.FreeVars {
 		v := x.freshValue(st, "fv_"+fv.Name(), fv.Type())
 		x.paramNonNeg(st, v)
+		if len(v.L) == 1 && v.L[0] != nil && v.L[0].S == SInt {
+			// the address of a captured variable is never nil
+			st.assume(Not(Eq(v.L[0], IntLit(0))))
+		}
 		fr.env[fv] = v
 		fr.names[fv.Name()] = fv
 	}
